@@ -204,6 +204,63 @@ def check_trunc(case, ctx):
                              "wellformed_cuts": n_ok})
 
 
+# ----------------------------------------------------------------------------- damaged compressed stream
+@st.composite
+def gzbytes_case(draw):
+    """A gzip input whose compressed bytes are damaged (1-8 bytes overwritten somewhere behind the header): depending
+    on where it hits, the decompressor reports an invalid stream at once or a checksum mismatch at the end."""
+    recs, _ = draw(fastq_input(nmax=40))
+    hits = [[draw(st.floats(0.0, 1.0)), draw(st.sampled_from([1, 1, 2, 8])), draw(st.integers(0, 255))]
+            for _ in range(draw(st.integers(3, 6)))]
+    return {"sub": "gzbytes", "recs": recs, "hits": hits, "cores": draw(st.sampled_from([1, 2, 2, 3])),
+            "chunking": draw(st.sampled_from(["one", "many"]))}
+
+
+def check_gzbytes(case, ctx):
+    recs = case["recs"]
+    data = cli.compress(cli.fastq(recs).encode(), "gz")
+    cores = case["cores"]
+    buffer = buffer_for(recs, case["chunking"])
+    ctx.label(f"cores:{cores}")
+    n = 0
+    for frac, width, value in case["hits"]:
+        b = bytearray(data)
+        p = 10 + int(frac * max(0, len(b) - 10 - width))
+        for k in range(width):
+            b[p + k] = (value + 37 * k) % 256
+        bad = bytes(b)
+        if bad == data:
+            continue
+        okz, plain = gunzip_oracle(bad)
+        if okz:
+            ctx.label("damage-not-detected-by-reference-decompressor")
+            continue  # no verdict: the reference decompressor accepts the stream
+        args, r = run_cutadapt(bad, "in.fastq.gz", cores, buffer, timeout=40)
+        what = f"gzip stream damaged at byte {p} (+{width}) of {len(data)}"
+        if getattr(r, "timed_out", False):
+            args, r = run_cutadapt(bad, "in.fastq.gz", cores, buffer, timeout=90)
+            if getattr(r, "timed_out", False):
+                raise Violation(f"{what}: run did not terminate within 90 s ({args})", tag="hang")
+        if r.exit == 0:
+            raise Violation(f"{what} ({plain}): cutadapt exited with status 0 ({args})", tag="silent")
+        if r.exit == "crash":
+            ctx.label("damaged->traceback")
+        elif not r.errors:
+            raise Violation(f"{what} ({plain}): exit status {r.exit} but no error message ({args})", tag="no-message")
+        out = r.files.get("out.fastq")
+        if out:
+            try:
+                cli.parse_records(out)
+            except cli.ParseError as e:
+                raise Violation(f"{what}: output written before the error is not a sequence of complete records: {e} "
+                                f"({args})", observed=out[-200:].decode("ascii", "replace"), tag="partial-record")
+        ctx.label("damage:" + ("checksum" if "crc" in str(plain).lower() or "check" in str(plain).lower() else "stream"))
+        n += 1
+    ctx.evaluations += max(0, n - 1)
+    if n:
+        ctx.nontrivial_case({"records": len(recs), "cores": cores, "damaged_runs": n})
+
+
 # ----------------------------------------------------------------------------- large compressed inputs
 @st.composite
 def bigtrunc_case(draw):
@@ -566,6 +623,7 @@ SUBS = {
     "sim": Sub(strategy=lambda tier: sim_case(), check=check_sim),
     "proc": Sub(strategy=lambda tier: proc_case(), check=check_proc),
     "bigtrunc": Sub(strategy=lambda tier: bigtrunc_case(), check=check_bigtrunc),
+    "gzbytes": Sub(strategy=lambda tier: gzbytes_case(), check=check_gzbytes),
 }
 
 
@@ -577,11 +635,13 @@ def plan(tier):
                [{"sub": "sim", "kind": "hyp", "examples": 300} for _ in range(3)] + \
                [{"sub": "simpair", "kind": "hyp", "examples": 150} for _ in range(2)] + \
                [{"sub": "proc", "kind": "hyp", "examples": 6} for _ in range(2)] + \
-               [{"sub": "bigtrunc", "kind": "hyp", "examples": 6} for _ in range(3)]
+               [{"sub": "bigtrunc", "kind": "hyp", "examples": 6} for _ in range(3)] + \
+               [{"sub": "gzbytes", "kind": "hyp", "examples": 12} for _ in range(2)]
     return [{"sub": "trunc", "kind": "hyp", "examples": 150} for _ in range(6)] + \
            [{"sub": "corrupt", "kind": "hyp", "examples": 200} for _ in range(3)] + \
            [{"sub": "paired", "kind": "hyp", "examples": 600} for _ in range(2)] + \
            [{"sub": "sim", "kind": "hyp", "examples": 8000} for _ in range(3)] + \
            [{"sub": "simpair", "kind": "hyp", "examples": 4000} for _ in range(2)] + \
            [{"sub": "proc", "kind": "hyp", "examples": 120} for _ in range(1)] + \
-           [{"sub": "bigtrunc", "kind": "hyp", "examples": 150} for _ in range(3)]
+           [{"sub": "bigtrunc", "kind": "hyp", "examples": 150} for _ in range(3)] + \
+           [{"sub": "gzbytes", "kind": "hyp", "examples": 400} for _ in range(3)]
